@@ -36,18 +36,24 @@ class Deps:
             raise vlib.ToolError("could not locate rlibs for %s" % missing)
         self.depdir = os.path.join(vlib.TARGET, "debug", "deps")
 
-    def rustc_cmd(self, src, out, extra=()):
+    def rustc_cmd(self, src, out, extra=(), rename=None):
         cmd = ["rustc", "--edition", "2021", "--crate-type", "bin", "-C", "debuginfo=0", "-C", "opt-level=0", "-A", "warnings",
                "--error-format=json", "-L", "dependency=" + self.depdir]
         for k, v in self.externs.items():
-            cmd += ["--extern", "%s=%s" % (k, v)]
+            cmd += ["--extern", "%s=%s" % ((rename or {}).get(k, k), v)]
         if vlib.COV: cmd += ["-C", "instrument-coverage"]
         return cmd + list(extra) + [src, "-o", out]
 
-    def compile(self, src, out, extra=()):
-        """returns (ok, [diagnostic dicts])"""
+    def compile(self, src, out, extra=(), rename=None):
+        """returns (ok, [diagnostic dicts]). rename: extern crate names under which dependencies are made available
+        ({"scale_info": "sinfo"}: the library is NOT reachable as ::scale_info); a program may ask for it itself with a
+        first line `// extern-rename: scale_info=sinfo`"""
+        if rename is None:
+            with open(src) as f: first = f.readline()
+            if first.startswith("// extern-rename: "):
+                rename = dict(x.split("=") for x in first[len("// extern-rename: "):].split())
         env = dict(os.environ, CARGO_MANIFEST_DIR=os.path.join(vlib.HARNESS, "vh"), CARGO_PKG_NAME="vh", CARGO_CRATE_NAME="prog")
-        p = subprocess.run(self.rustc_cmd(src, out, extra), env=env, stdout=subprocess.PIPE, stderr=subprocess.PIPE, text=True)
+        p = subprocess.run(self.rustc_cmd(src, out, extra, rename), env=env, stdout=subprocess.PIPE, stderr=subprocess.PIPE, text=True)
         diags = []
         for l in p.stderr.splitlines():
             if l.startswith("{"):
